@@ -9,6 +9,7 @@ import SlocModel.Driver.AtomicWrite
 import SlocModel.Driver.Remote
 import SlocModel.Driver.Cache
 import SlocModel.Driver.GitDiff
+import SlocModel.Driver.Gate
 open SlocModel.Driver
 
 def dispatch (line : String) : String :=
@@ -46,6 +47,9 @@ def dispatch (line : String) : String :=
       | "git-diff" => handleGitDiff args
       | "git-staged" => handleGitStaged args
       | "range" => handleRange args
+      | "gate" => handleGate args
+      | "preset" => handlePreset args
+      | "date" => handleDate args
       | _ => some "bad-op"
     r.getD "bad-args"
   | [] => "bad-op"
